@@ -46,7 +46,7 @@ import (
 // that matches no table pair (= the translator missed an access).
 //
 // Child: the daemon's activities, in-process, at high rate, on the REAL objects.  configuration.CurrentConfig is
-// filled like the loader would (2 sensors, 4 curves incl. a PID and a function curve, 8 fans: 4 hwmon on one fake
+// filled like the loader would (3 sensors: hwmon, file, cmd; 6 curves incl. two PID and a function curve, 8 fans: 4 hwmon on one fake
 // chip, 3 file, 1 cmd; every way of selecting the control algorithm: default PID x2, explicit pid, deprecated
 // controlLoop block, direct without limit x2, direct with limit x2) and the objects and controllers are created by
 // the REAL start-up glue of backend.go (initializeSensors / initializeCurves / initializeFans /
